@@ -183,7 +183,7 @@ Definition ex_E (validate generate : bool) : env := mkEnv ex_P 7 4 1 2 99 valida
 Definition ex_acct (st : status) (algos : N) : acct := set_algos (set_status acct0 st) algos.
 Definition ex_base : base :=
   mkBase [(1, ex_acct NotPart 10000000); (2, ex_acct NotPart 1000000000); (3, ex_acct Offline 5500000);
-          (4, set_part (ex_acct Online 20000000) Online true 0 7 8 9 1 3000 100)] [] 1000.
+          (4, set_part (ex_acct Online 20000000) Online true 0 7 8 9 1 3000 100)] [] 1000 [].
 Definition ex_U : list N := [1; 2; 3; 4; 5].
 Definition ex_tx (txid sender fee : N) (b : body) : txn := mkTxn sender fee 5 20 0 true true sender 0 txid 1000000 0 b.
 Definition ex_groups : list (list txn * N) :=
@@ -236,7 +236,7 @@ Proof. split; [vm_compute; reflexivity | vm_compute; discriminate]. Qed.
    final CalculateTotals check ("sum of money changed") rejects such a block. *)
 Definition ex_np_cow : cow :=
   mkCow layer0 [] (mkBase [(1, ex_acct NotPart 10000000); (2, ex_acct NotPart 1000000000);
-                           (6, set_part (ex_acct NotPart 50000000) NotPart false 0 9 0 0 0 3 0)] [] 0).
+                           (6, set_part (ex_acct NotPart 50000000) NotPart false 0 9 0 0 0 3 0)] [] 0 []).
 
 Theorem expire_nonparticipating_refuted :
   exists c', end_block (ex_E true false) [6] [] 0 0 ex_np_cow = (c', Ok tt) /\
